@@ -10,7 +10,7 @@
    final division rounds). *)
 From Coq Require Import ZArith Reals.
 From Flocq Require Import Core BinarySingleNaN.
-From Tetl Require Import Lib.Base C12.Model C12.Spec C12.ProofsCast C12.ProofsAlgebra C12.FModel C12.FProofs C12.FProofs2 C12.FProofs3 C12.FProofs4 C12.FProofs5 C12.FProofs6.
+From Tetl Require Import Lib.Base C12.Model C12.Spec C12.ProofsCast C12.ProofsAlgebra C12.FModel C12.FProofs C12.FProofs2 C12.FProofs3 C12.FProofs4 C12.FProofs5 C12.FProofs6 C12.FGuard.
 Local Open Scope Z_scope.
 
 (* duration_cast<duration<double, n2/d2>>(duration<Int, n1/d1>{c}) and the converting constructor
@@ -154,6 +154,28 @@ Proof.
   repeat split; try assumption.
 Qed.
 
+(* + - < == (double with double, and int64 with double) under ONE computable hypothesis: the boolean guard
+   [farith_ok] (FGuard.v) that the correspondence run evaluates to decide where it prints the specification leg of
+   the ops d_pm / d_mpm implies the hypotheses of C12_float_source_arith_exact and C12_float_mixed_exact, for both
+   orders of the operands (a <= b is evaluated as !(b < a)) *)
+Theorem C12_float_arith_guarded : forall w1 n1 d1 w2 n2 d2 c1 c2,
+  period_ok n1 d1 = true -> period_ok n2 d2 = true -> farith_ok n1 d1 n2 d2 c1 c2 = true ->
+  let a := Dur w1 n1 d1 in let b := Dur w2 n2 d2 in
+  (exists r, dd_plus_m a b (d_of_Z c1) (d_of_Z c2) = Val r /\ is_finite r = true
+             /\ B2R r = IZR (plus_spec n1 d1 n2 d2 c1 c2))
+  /\ (exists r, dd_minus_m a b (d_of_Z c1) (d_of_Z c2) = Val r /\ is_finite r = true
+             /\ B2R r = IZR (minus_spec n1 d1 n2 d2 c1 c2))
+  /\ dd_lt_m a b (d_of_Z c1) (d_of_Z c2) = Val (lt_spec n1 d1 n2 d2 c1 c2)
+  /\ dd_eq_m a b (d_of_Z c1) (d_of_Z c2) = Val (eq_spec n1 d1 n2 d2 c1 c2)
+  /\ dd_lt_m b a (d_of_Z c2) (d_of_Z c1) = Val (lt_spec n2 d2 n1 d1 c2 c1)
+  /\ (exists r, id_plus_m a b c1 (d_of_Z c2) = Val r /\ is_finite r = true
+             /\ B2R r = IZR (plus_spec n1 d1 n2 d2 c1 c2))
+  /\ (exists r, id_minus_m a b c1 (d_of_Z c2) = Val r /\ is_finite r = true
+             /\ B2R r = IZR (minus_spec n1 d1 n2 d2 c1 c2))
+  /\ id_lt_m a b c1 (d_of_Z c2) = Val (lt_spec n1 d1 n2 d2 c1 c2)
+  /\ id_eq_m a b c1 (d_of_Z c2) = Val (eq_spec n1 d1 n2 d2 c1 c2).
+Proof. exact farith_guarded. Qed.
+
 (* the computable specification used by the correspondence run (one correctly rounded division of
    the exactly represented numerator and denominator) is that once-rounded rational *)
 Theorem C12_float_spec_is_rounded_rational : forall n1 d1 n2 d2 c,
@@ -169,7 +191,7 @@ Definition C12_group_float_target :=
 Print Assumptions C12_group_float_target.
 
 Definition C12_group_float_source :=
-  (conj C12_float_source_cast_exact (conj C12_float_source_rounding_exact (conj C12_float_source_arith_exact (conj C12_float_mixed_exact C12_float_source_guarded)))).
+  (conj C12_float_source_cast_exact (conj C12_float_source_rounding_exact (conj C12_float_source_arith_exact (conj C12_float_mixed_exact (conj C12_float_source_guarded C12_float_arith_guarded))))).
 Print Assumptions C12_group_float_source.
 
 (* non-vacuity: 1500 ms -> 1.5 s; 90 min -> 1.5 h; -2^31 ticks of 1001/30000 s in thirds of a second *)
